@@ -206,7 +206,7 @@ def pred_tempo(case, ctx):
 SHORT_NAMES = ["n", "no", "non", "none", "nan", "null", "x", "k", "m", "silence", "end", "0", "1", "-1", "t_min", "a b"]
 
 
-WS_NAMES = ["seg", "seg ", " seg", "seg\t", "s eg", " seg ", "seg\u00a0", "se g"]
+WS_NAMES = ["seg", "seg ", " seg", "seg\t", "s eg", " seg ", "seg\u00a0", "se g", "s\u00e9g", "se\u0301g"]     # the last two: composed / decomposed spelling of the same glyphs
 
 
 def _bijection(labels, seed, tag, short=False):
